@@ -102,28 +102,60 @@ func drawStart(t *rapid.T) (*big.Int, string) {
 }
 
 type record struct {
+	aeadID  uint16
 	seq     *big.Int
 	pt, aad []byte
 	ct      []byte
-	forged  bool
 }
 
+// ctx is one context object of the history together with its own model counter. All contexts of a history share the
+// exporter secret and base nonce; the contexts of one AEAD share the key, so a ciphertext produced at sequence number i by
+// any sealer of an AEAD is what every opener of that AEAD must accept at its own i-th position, and only there.
+type ctx struct {
+	name   string
+	sealer hpke.Sealer // exactly one of sealer / opener is set
+	opener hpke.Opener
+	aeadID uint16
+	suite  rhpke.Suite
+	key    []byte
+	aead   cipher.AEAD // crypto/cipher GCM or x/crypto chacha20poly1305, built directly from key
+	seq    *big.Int    // the model
+}
+
+func (c *ctx) obj() hpke.Context {
+	if c.sealer != nil {
+		return c.sealer
+	}
+	return c.opener
+}
+
+func (c *ctx) role() byte {
+	if c.sealer != nil {
+		return 0
+	}
+	return 1
+}
+
+const maxPerRole = 7
+
 type machine struct {
-	aeadID            uint16
-	suite             rhpke.Suite
-	key, bn, exporter []byte
-	aead              cipher.AEAD
-	sealer            hpke.Sealer
-	opener            hpke.Opener
-	seqS, seqO        *big.Int
-	recs              []*record
-	log               []byte
+	primary      uint16
+	bn, exporter []byte
+	master       []byte // 32-byte master key: AES-128 contexts use its first half, the other two AEADs all of it
+	kem, kdf     uint16
+	sealers      []*ctx
+	openers      []*ctx
+	rcv          *hpke.Receiver
+	rcvSetup     func() (hpke.Opener, error) // the original Receiver object, same enc and inputs again
+	recs         []*record
+	log          []byte
 	// history features (non-trivial rule)
 	lastOpenFailed, failThenSuccess bool
 	carry, overflow                 bool
-	sealsSinceRestore               int
 	restoreBetweenSeals             bool
-	restoredAfterSeal               bool
+	sealedSinceRestore              map[*ctx]bool
+	restoredAfterSeal               map[*ctx]bool
+	siblings                        bool
 	sub                             string
 	t                               *rapid.T
 	dead                            bool // a known finding was hit: the rest of the history is not evaluated
@@ -132,7 +164,11 @@ type machine struct {
 type abandon struct{}
 
 func (m *machine) fail(key, detail string) {
-	vlib.Report(m.t, key, fmt.Sprintf("%s [aead %d seqS=%x seqO=%x history=%s]", detail, m.aeadID, seqBytes(m.seqS), seqBytes(m.seqO), m.log))
+	st := ""
+	for _, c := range append(append([]*ctx{}, m.sealers...), m.openers...) {
+		st += fmt.Sprintf(" %s=%x", c.name, seqBytes(c.seq))
+	}
+	vlib.Report(m.t, key, fmt.Sprintf("%s [model:%s; history=%s]", detail, st, m.log))
 	m.dead = true // known finding: abandon the history
 	panic(abandon{})
 }
@@ -173,28 +209,40 @@ func (m *machine) noteIncrement(v *big.Int) {
 
 func (m *machine) nonce(seq *big.Int) []byte { return rhpke.ComputeNonce(m.bn, seq) }
 
-// checkSeq compares the marshalled state of both sides with the model.
+func (m *machine) keyFor(aeadID uint16) []byte {
+	if aeadID == rhpke.AEADAES128 {
+		return m.master[:16]
+	}
+	return m.master
+}
+
+// checkOne compares the marshalled state of one context with its model.
+func (m *machine) checkOne(c *ctx, where string) {
+	raw, err := c.obj().MarshalBinary()
+	if err != nil {
+		m.fail("C08/marshal/error", fmt.Sprintf("%s %s: %v", where, c.name, err))
+	}
+	f, err := parseCtx(raw)
+	if err != nil {
+		m.fail("C08/marshal/layout", fmt.Sprintf("%s %s: %v", where, c.name, err))
+	}
+	side := map[byte]string{0: "sealer", 1: "opener"}[c.role()]
+	if !bytes.Equal(f.seq, seqBytes(c.seq)) {
+		m.fail("C08/seq/"+side+"/"+where, fmt.Sprintf("context %s: marshalled seq %x, model %x", c.name, f.seq, seqBytes(c.seq)))
+	}
+	if f.role != c.role() || !bytes.Equal(f.key, c.key) || !bytes.Equal(f.bn, m.bn) || !bytes.Equal(f.exp, m.exporter) ||
+		f.kem != c.suite.KEM || f.kdf != c.suite.KDF || f.aead != c.suite.AEAD {
+		m.fail("C08/marshal/"+side+"/secrets-changed", fmt.Sprintf("%s context %s: role %d aead %d key %x base_nonce %x exporter %x", where, c.name, f.role, f.aead, f.key, f.bn, f.exp))
+	}
+}
+
+// checkSeq compares the marshalled state of every context with the model: each context counts on its own.
 func (m *machine) checkSeq(where string) {
-	for side, obj := range map[string]hpke.Context{"sealer": m.sealer, "opener": m.opener} {
-		raw, err := obj.MarshalBinary()
-		if err != nil {
-			m.fail("C08/marshal/error", fmt.Sprintf("%s %s: %v", where, side, err))
-		}
-		f, err := parseCtx(raw)
-		if err != nil {
-			m.fail("C08/marshal/layout", fmt.Sprintf("%s %s: %v", where, side, err))
-		}
-		want, role := m.seqS, byte(0)
-		if side == "opener" {
-			want, role = m.seqO, 1
-		}
-		if !bytes.Equal(f.seq, seqBytes(want)) {
-			m.fail("C08/seq/"+side+"/"+where, fmt.Sprintf("marshalled seq %x, model %x", f.seq, seqBytes(want)))
-		}
-		if f.role != role || !bytes.Equal(f.key, m.key) || !bytes.Equal(f.bn, m.bn) || !bytes.Equal(f.exp, m.exporter) ||
-			f.kem != m.suite.KEM || f.kdf != m.suite.KDF || f.aead != m.suite.AEAD {
-			m.fail("C08/marshal/"+side+"/secrets-changed", fmt.Sprintf("%s: role %d key %x base_nonce %x exporter %x", where, f.role, f.key, f.bn, f.exp))
-		}
+	for _, c := range m.sealers {
+		m.checkOne(c, where)
+	}
+	for _, c := range m.openers {
+		m.checkOne(c, where)
 	}
 }
 
@@ -207,11 +255,22 @@ func drawMsg(t *rapid.T, label string) []byte {
 	return b
 }
 
-func (m *machine) seal(t *rapid.T) {
+func (m *machine) pick(t *rapid.T, list []*ctx, label string) *ctx {
+	// the first two (the contexts moved to the drawn start value and the fresh ones) are preferred
+	if len(list) == 1 {
+		return list[0]
+	}
+	if rapid.IntRange(0, 2).Draw(t, label+".primary") != 0 {
+		return list[0]
+	}
+	return list[rapid.IntRange(0, len(list)-1).Draw(t, label)]
+}
+
+func (m *machine) sealOn(t *rapid.T, s *ctx) {
 	pt, aad := drawMsg(t, "pt"), drawMsg(t, "aad")
-	m.log = append(m.log, 'S')
-	ct, err := m.sealer.Seal(pt, aad)
-	if m.seqS.Cmp(maxSeq) >= 0 {
+	m.log = append(m.log, fmt.Sprintf("S(%s)", s.name)...)
+	ct, err := s.sealer.Seal(pt, aad)
+	if s.seq.Cmp(maxSeq) >= 0 {
 		m.overflow = true
 		vlib.Class(m.sub, "seal-at-max-seq")
 		if err == nil || ct != nil {
@@ -220,27 +279,29 @@ func (m *machine) seal(t *rapid.T) {
 		return // model unchanged: stays failed
 	}
 	if err != nil {
-		m.fail("C08/seal/error", fmt.Sprintf("Seal: %v", err))
+		m.fail("C08/seal/error", fmt.Sprintf("Seal on %s: %v", s.name, err))
 	}
-	want := m.aead.Seal(nil, m.nonce(m.seqS), pt, aad)
+	want := s.aead.Seal(nil, m.nonce(s.seq), pt, aad)
 	if !bytes.Equal(ct, want) {
-		m.fail("C08/seal/nonce", fmt.Sprintf("Seal number seq=%x: ciphertext %x is not AEAD.Seal(key, base_nonce XOR seq, pt, aad) = %x", seqBytes(m.seqS), ct, want))
+		m.fail("C08/seal/nonce", fmt.Sprintf("Seal on %s (AEAD %d) at seq=%x: ciphertext %x is not AEAD.Seal(key, base_nonce XOR seq, pt, aad) = %x computed with crypto/cipher resp. x/crypto", s.name, s.aeadID, seqBytes(s.seq), ct, want))
 	}
-	m.recs = append(m.recs, &record{seq: new(big.Int).Set(m.seqS), pt: pt, aad: aad, ct: ct})
-	m.noteIncrement(m.seqS)
-	m.seqS = new(big.Int).Add(m.seqS, one)
-	m.sealsSinceRestore++
-	if m.restoredAfterSeal {
+	m.recs = append(m.recs, &record{aeadID: s.aeadID, seq: new(big.Int).Set(s.seq), pt: pt, aad: aad, ct: ct})
+	m.noteIncrement(s.seq)
+	s.seq = new(big.Int).Add(s.seq, one)
+	m.sealedSinceRestore[s] = true
+	if m.restoredAfterSeal[s] {
 		m.restoreBetweenSeals = true
 	}
 	vlib.Class(m.sub, "seal-ok")
 }
 
-// find returns a record with cmp(rec.seq, seqO) == want (-1 stale, 0 next, +1 future), or nil.
-func (m *machine) find(t *rapid.T, want int) *record {
+func (m *machine) seal(t *rapid.T) { m.sealOn(t, m.pick(t, m.sealers, "sealer")) }
+
+// find returns a record of the opener's AEAD with cmp(rec.seq, o.seq) == want (-1 stale, 0 next, +1 future), or nil.
+func (m *machine) find(t *rapid.T, o *ctx, want int) *record {
 	var cand []*record
 	for _, r := range m.recs {
-		if r.seq.Cmp(m.seqO) == want {
+		if r.aeadID == o.aeadID && r.seq.Cmp(o.seq) == want {
 			cand = append(cand, r)
 		}
 	}
@@ -250,9 +311,9 @@ func (m *machine) find(t *rapid.T, want int) *record {
 	return cand[rapid.IntRange(0, len(cand)-1).Draw(t, "which")]
 }
 
-func (m *machine) expectOpenOK(r *record, what string) {
-	pt, err := m.opener.Open(r.ct, r.aad)
-	if m.seqO.Cmp(maxSeq) >= 0 {
+func (m *machine) expectOpenOK(o *ctx, r *record, what string) {
+	pt, err := o.opener.Open(r.ct, r.aad)
+	if o.seq.Cmp(maxSeq) >= 0 {
 		// only reachable with a harness-made ciphertext: the AEAD accepts, the counter refuses
 		m.overflow = true
 		vlib.Class(m.sub, "open-at-max-seq")
@@ -262,10 +323,10 @@ func (m *machine) expectOpenOK(r *record, what string) {
 		return
 	}
 	if err != nil || !bytes.Equal(pt, r.pt) {
-		m.fail("C08/open/"+what, fmt.Sprintf("Open of the ciphertext with seq %x at opener seq %x: err=%v pt=%x want %x", seqBytes(r.seq), seqBytes(m.seqO), err, pt, r.pt))
+		m.fail("C08/open/"+what, fmt.Sprintf("Open on %s of the ciphertext with seq %x at opener seq %x: err=%v pt=%x want %x", o.name, seqBytes(r.seq), seqBytes(o.seq), err, pt, r.pt))
 	}
-	m.noteIncrement(m.seqO)
-	m.seqO = new(big.Int).Add(m.seqO, one)
+	m.noteIncrement(o.seq)
+	o.seq = new(big.Int).Add(o.seq, one)
 	if m.lastOpenFailed {
 		m.failThenSuccess = true
 	}
@@ -273,63 +334,125 @@ func (m *machine) expectOpenOK(r *record, what string) {
 	vlib.Class(m.sub, "open-ok:"+what)
 }
 
-func (m *machine) expectOpenFail(ct, aad []byte, what string) {
-	pt, err := m.opener.Open(ct, aad)
+func (m *machine) expectOpenFail(o *ctx, ct, aad []byte, what string) {
+	pt, err := o.opener.Open(ct, aad)
 	if err == nil || pt != nil {
-		m.fail("C08/open-accepts/"+what, fmt.Sprintf("Open(%s) at opener seq %x: err=%v pt=%x (want an error and no plaintext)", what, seqBytes(m.seqO), err, pt))
+		m.fail("C08/open-accepts/"+what, fmt.Sprintf("Open(%s) on %s at opener seq %x: err=%v pt=%x (want an error and no plaintext)", what, o.name, seqBytes(o.seq), err, pt))
 	}
 	m.lastOpenFailed = true
 	vlib.Class(m.sub, "open-fails:"+what)
 	m.checkSeq("after-failed-open")
 }
 
-func (m *machine) forge(seq *big.Int, t *rapid.T) *record {
+func (m *machine) forge(o *ctx, seq *big.Int, t *rapid.T) *record {
 	pt, aad := drawMsg(t, "fpt"), drawMsg(t, "faad")
-	return &record{seq: new(big.Int).Set(seq), pt: pt, aad: aad, ct: m.aead.Seal(nil, m.nonce(seq), pt, aad), forged: true}
+	return &record{aeadID: o.aeadID, seq: new(big.Int).Set(seq), pt: pt, aad: aad, ct: o.aead.Seal(nil, m.nonce(seq), pt, aad)}
 }
 
-func (m *machine) restore(t *rapid.T, side string) {
-	var obj hpke.Context = m.sealer
-	if side == "opener" {
-		obj = m.opener
-	}
-	raw, err := obj.MarshalBinary()
+// reload marshals c and unmarshals the blob into a new context object with the same model.
+func (m *machine) reload(c *ctx, name string) *ctx {
+	raw, err := c.obj().MarshalBinary()
 	if err != nil {
 		m.fail("C08/marshal/error", err.Error())
 	}
-	if side == "sealer" {
+	n := *c
+	n.name = name
+	n.seq = new(big.Int).Set(c.seq)
+	if c.sealer != nil {
 		s, err := hpke.UnmarshalSealer(raw)
 		if err != nil {
 			m.fail("C08/restore/sealer-error", fmt.Sprintf("UnmarshalSealer(MarshalBinary()) = %v", err))
 		}
-		m.sealer = s
-		if m.sealsSinceRestore > 0 {
-			m.restoredAfterSeal = true
-		}
-		m.sealsSinceRestore = 0
+		n.sealer = s
 	} else {
 		o, err := hpke.UnmarshalOpener(raw)
 		if err != nil {
 			m.fail("C08/restore/opener-error", fmt.Sprintf("UnmarshalOpener(MarshalBinary()) = %v", err))
 		}
-		m.opener = o
+		n.opener = o
 	}
-	vlib.Class(m.sub, "restore-"+side)
+	return &n
+}
+
+// restore replaces a context by its marshal -> unmarshal image.
+func (m *machine) restore(t *rapid.T, list []*ctx, label string) {
+	i := 0
+	if len(list) > 1 && rapid.IntRange(0, 2).Draw(t, label+".other") == 0 {
+		i = rapid.IntRange(0, len(list)-1).Draw(t, label)
+	}
+	old := list[i]
+	n := m.reload(old, old.name)
+	list[i] = n
+	if m.sealedSinceRestore[old] {
+		m.restoredAfterSeal[n] = true
+	}
+	vlib.Class(m.sub, "restore-"+label)
+}
+
+// fork adds the marshal -> unmarshal image of a context as a further, independent context (the original stays in use).
+func (m *machine) fork(t *rapid.T, sealer bool) {
+	list := &m.openers
+	label := "opener"
+	if sealer {
+		list, label = &m.sealers, "sealer"
+	}
+	if len(*list) >= maxPerRole {
+		t.Skip("enough contexts")
+	}
+	src := (*list)[rapid.IntRange(0, len(*list)-1).Draw(t, "forkOf")]
+	*list = append(*list, m.reload(src, fmt.Sprintf("%s+fork%d", src.name, len(*list))))
+	m.siblings = true
+	vlib.Class(m.sub, "fork-"+label)
+}
+
+func (m *machine) blobCtx(name string, role byte, aeadID uint16, seq *big.Int) *ctx {
+	c := &ctx{name: name, aeadID: aeadID, suite: rhpke.Suite{KEM: m.kem, KDF: m.kdf, AEAD: aeadID}, key: m.keyFor(aeadID), seq: new(big.Int).Set(seq)}
+	a, err := rhpke.NewAEAD(aeadID, c.key)
+	if err != nil {
+		m.t.Fatalf("stdlib AEAD: %v", err)
+	}
+	c.aead = a
+	f := &ctxFields{role: role, kem: m.kem, kdf: m.kdf, aead: aeadID, exp: m.exporter, key: c.key, bn: m.bn, seq: seqBytes(seq)}
+	if role == 0 {
+		s, err := hpke.UnmarshalSealer(f.marshal())
+		if err != nil {
+			vlib.Report(m.t, "C08/restore/sealer-error", fmt.Sprintf("UnmarshalSealer of a blob with aead %d seq %x: %v", aeadID, f.seq, err))
+			m.t.SkipNow()
+		}
+		c.sealer = s
+	} else {
+		o, err := hpke.UnmarshalOpener(f.marshal())
+		if err != nil {
+			vlib.Report(m.t, "C08/restore/opener-error", fmt.Sprintf("UnmarshalOpener of a blob with aead %d seq %x: %v", aeadID, f.seq, err))
+			m.t.SkipNow()
+		}
+		c.opener = o
+	}
+	return c
 }
 
 func newMachine(t *rapid.T, aeadID uint16, sub string) *machine {
 	kemID := rapid.SampledFrom([]uint16{rhpke.KEMX25519, rhpke.KEMP256}).Draw(t, "kem")
 	kdfID := rapid.SampledFrom([]uint16{rhpke.KDFSHA256, rhpke.KDFSHA384, rhpke.KDFSHA512}).Draw(t, "kdf")
-	m := &machine{aeadID: aeadID, suite: rhpke.Suite{KEM: kemID, KDF: kdfID, AEAD: aeadID}, sub: sub, t: t}
+	m := &machine{primary: aeadID, kem: kemID, kdf: kdfID, sub: sub, t: t, sealedSinceRestore: map[*ctx]bool{}, restoredAfterSeal: map[*ctx]bool{}}
+	suite := rhpke.Suite{KEM: kemID, KDF: kdfID, AEAD: aeadID}
 	cs := hpke.NewSuite(hpke.KEM(kemID), hpke.KDF(kdfID), hpke.AEAD(aeadID))
 	sch := hpke.KEM(kemID).Scheme()
 	pkR, skR := sch.DeriveKeyPair(vlib.EdgeBytes(t, sch.SeedSize(), "ikmR"))
 	info := vlib.Bytes(t, 0, 20, "info")
+	usePSK := rapid.Bool().Draw(t, "pskMode")
+	psk, pskID := bytes.Repeat([]byte{0x42}, 32), []byte("C08")
 	snd, err := cs.NewSender(pkR, info)
 	if err != nil {
 		t.Fatalf("NewSender: %v", err)
 	}
-	enc, sealer, err := snd.Setup(vlib.DrawReader(t, "rnd"))
+	var enc []byte
+	var sealer hpke.Sealer
+	if usePSK {
+		enc, sealer, err = snd.SetupPSK(vlib.DrawReader(t, "rnd"), psk, pskID)
+	} else {
+		enc, sealer, err = snd.Setup(vlib.DrawReader(t, "rnd"))
+	}
 	if err != nil {
 		t.Fatalf("Sender.Setup: %v", err)
 	}
@@ -337,11 +460,16 @@ func newMachine(t *rapid.T, aeadID uint16, sub string) *machine {
 	if err != nil {
 		t.Fatalf("NewReceiver: %v", err)
 	}
-	opener, err := rcv.Setup(enc)
+	m.rcvSetup = func() (hpke.Opener, error) {
+		if usePSK {
+			return rcv.SetupPSK(append([]byte{}, enc...), append([]byte{}, psk...), append([]byte{}, pskID...))
+		}
+		return rcv.Setup(append([]byte{}, enc...))
+	}
+	opener, err := m.rcvSetup()
 	if err != nil {
 		t.Fatalf("Receiver.Setup: %v", err)
 	}
-	// move both sides to the drawn sequence number through the documented serialisation
 	start, cls := drawStart(t)
 	vlib.Class(sub, cls)
 	rawS, _ := sealer.MarshalBinary()
@@ -357,22 +485,34 @@ func newMachine(t *rapid.T, aeadID uint16, sub string) *machine {
 		vlib.Report(t, "C08/marshal/fresh-context", fmt.Sprintf("sealer %x opener %x", rawS, rawO))
 		t.SkipNow()
 	}
-	m.key, m.bn, m.exporter = fS.key, fS.bn, fS.exp
-	a, err := rhpke.NewAEAD(aeadID, m.key)
+	m.bn, m.exporter = fS.bn, fS.exp
+	m.master = append([]byte{}, fS.key...)
+	if len(m.master) == 16 {
+		m.master = append(m.master, fS.key...)
+	}
+	a, err := rhpke.NewAEAD(aeadID, fS.key)
 	if err != nil {
 		t.Fatalf("stdlib AEAD: %v", err)
 	}
-	m.aead = a
-	fS.seq, fO.seq = seqBytes(start), seqBytes(start)
-	if m.sealer, err = hpke.UnmarshalSealer(fS.marshal()); err != nil {
-		vlib.Report(t, "C08/restore/sealer-error", fmt.Sprintf("UnmarshalSealer with seq %x: %v", fS.seq, err))
-		t.SkipNow()
+	// the contexts moved to the drawn sequence number through the documented serialisation (first in the lists) ...
+	m.sealers = append(m.sealers, m.blobCtx("S", 0, aeadID, start))
+	m.openers = append(m.openers, m.blobCtx("O", 1, aeadID, start))
+	// ... the fresh contexts the Sender / Receiver handed out (sequence number 0) ...
+	zero := big.NewInt(0)
+	m.sealers = append(m.sealers, &ctx{name: "S0", sealer: sealer, aeadID: aeadID, suite: suite, key: fS.key, aead: a, seq: new(big.Int).Set(zero)})
+	m.openers = append(m.openers, &ctx{name: "O0", opener: opener, aeadID: aeadID, suite: suite, key: fS.key, aead: a, seq: new(big.Int).Set(zero)})
+	// ... and hand-made contexts of the two other AEADs that use the same master key, base nonce and start value in
+	// the same process
+	if rapid.IntRange(0, 3).Draw(t, "twins") != 0 {
+		for _, other := range []uint16{rhpke.AEADAES128, rhpke.AEADAES256, rhpke.AEADChaCha} {
+			if other == aeadID {
+				continue
+			}
+			m.sealers = append(m.sealers, m.blobCtx(fmt.Sprintf("S/aead%d", other), 0, other, start))
+			m.openers = append(m.openers, m.blobCtx(fmt.Sprintf("O/aead%d", other), 1, other, start))
+		}
+		vlib.Class(sub, "same-key-under-all-three-AEADs")
 	}
-	if m.opener, err = hpke.UnmarshalOpener(fO.marshal()); err != nil {
-		vlib.Report(t, "C08/restore/opener-error", fmt.Sprintf("UnmarshalOpener with seq %x: %v", fO.seq, err))
-		t.SkipNow()
-	}
-	m.seqS, m.seqO = new(big.Int).Set(start), new(big.Int).Set(start)
 	m.log = []byte(fmt.Sprintf("start=%x:", seqBytes(start)))
 	return m
 }
@@ -381,110 +521,150 @@ func history(t *rapid.T, aeadID uint16, sub string) {
 	m := newMachine(t, aeadID, sub)
 	vlib.Eval(sub)
 	m.checkSeq("start")
+	opener := func(t *rapid.T) *ctx { return m.pick(t, m.openers, "opener") }
+	openNext := m.step(func(t *rapid.T) {
+		o := opener(t)
+		r := m.find(t, o, 0)
+		if r == nil {
+			t.Skip("nothing to open")
+		}
+		m.log = append(m.log, fmt.Sprintf("O(%s)", o.name)...)
+		m.expectOpenOK(o, r, "next")
+	})
 	t.Repeat(map[string]func(*rapid.T){
-		"Seal":  m.step(m.seal),
-		"Seal2": m.step(m.seal),
-		"OpenNext": m.step(func(t *rapid.T) {
-			r := m.find(t, 0)
-			if r == nil {
-				t.Skip("nothing to open")
-			}
-			m.log = append(m.log, 'O')
-			m.expectOpenOK(r, "next")
-		}),
-		"OpenNext2": m.step(func(t *rapid.T) {
-			r := m.find(t, 0)
-			if r == nil {
-				t.Skip("nothing to open")
-			}
-			m.log = append(m.log, 'O')
-			m.expectOpenOK(r, "next")
-		}),
+		"Seal":      m.step(m.seal),
+		"Seal2":     m.step(m.seal),
+		"OpenNext":  openNext,
+		"OpenNext2": openNext,
 		"OpenStale": m.step(func(t *rapid.T) {
-			r := m.find(t, -1)
+			o := opener(t)
+			r := m.find(t, o, -1)
 			if r == nil {
 				t.Skip("no stale ciphertext")
 			}
-			m.log = append(m.log, 's')
-			m.expectOpenFail(r.ct, r.aad, "stale")
+			m.log = append(m.log, fmt.Sprintf("s(%s)", o.name)...)
+			m.expectOpenFail(o, r.ct, r.aad, "stale")
 		}),
 		"OpenFuture": m.step(func(t *rapid.T) {
-			r := m.find(t, +1)
+			o := opener(t)
+			r := m.find(t, o, +1)
 			if r == nil {
 				t.Skip("no future ciphertext")
 			}
-			m.log = append(m.log, 'f')
-			m.expectOpenFail(r.ct, r.aad, "future")
+			m.log = append(m.log, fmt.Sprintf("f(%s)", o.name)...)
+			m.expectOpenFail(o, r.ct, r.aad, "future")
+		}),
+		"OpenOtherAEAD": m.step(func(t *rapid.T) {
+			// a ciphertext of the same key, nonce and sequence number made under another AEAD must not open
+			o := opener(t)
+			var cand []*record
+			for _, r := range m.recs {
+				if r.aeadID != o.aeadID && r.seq.Cmp(o.seq) == 0 {
+					cand = append(cand, r)
+				}
+			}
+			if len(cand) == 0 {
+				t.Skip("no ciphertext of another AEAD at this sequence number")
+			}
+			r := cand[rapid.IntRange(0, len(cand)-1).Draw(t, "which")]
+			m.log = append(m.log, fmt.Sprintf("x(%s)", o.name)...)
+			m.expectOpenFail(o, r.ct, r.aad, "other-aead")
 		}),
 		"OpenGarbage": m.step(func(t *rapid.T) {
-			m.log = append(m.log, 'g')
-			r := m.find(t, 0)
+			o := opener(t)
+			m.log = append(m.log, fmt.Sprintf("g(%s)", o.name)...)
+			r := m.find(t, o, 0)
 			kind := rapid.SampledFrom([]string{"random", "bitflip", "truncated", "wrong-aad", "empty"}).Draw(t, "garbage")
 			if r == nil && kind != "empty" {
 				kind = "random"
 			}
 			switch kind {
 			case "random":
-				m.expectOpenFail(vlib.Bytes(t, 0, 64, "junk"), drawMsg(t, "gaad"), "garbage-random")
+				m.expectOpenFail(o, vlib.Bytes(t, 0, 64, "junk"), drawMsg(t, "gaad"), "garbage-random")
 			case "empty":
-				m.expectOpenFail([]byte{}, nil, "garbage-empty")
+				m.expectOpenFail(o, []byte{}, nil, "garbage-empty")
 			case "bitflip":
 				ct := append([]byte{}, r.ct...)
 				i := rapid.IntRange(0, 8*len(ct)-1).Draw(t, "bit")
 				ct[i/8] ^= 1 << (i % 8)
-				m.expectOpenFail(ct, r.aad, "garbage-bitflip")
+				m.expectOpenFail(o, ct, r.aad, "garbage-bitflip")
 			case "truncated":
-				m.expectOpenFail(r.ct[:rapid.IntRange(0, len(r.ct)-1).Draw(t, "cut")], r.aad, "garbage-truncated")
+				m.expectOpenFail(o, r.ct[:rapid.IntRange(0, len(r.ct)-1).Draw(t, "cut")], r.aad, "garbage-truncated")
 			case "wrong-aad":
-				m.expectOpenFail(r.ct, append(append([]byte{}, r.aad...), 1), "garbage-wrong-aad")
+				m.expectOpenFail(o, r.ct, append(append([]byte{}, r.aad...), 1), "garbage-wrong-aad")
 			}
 		}),
 		"OpenForgedNeighbour": m.step(func(t *rapid.T) {
 			// a ciphertext made by the harness under the nonce of a neighbouring sequence number, or of the
 			// sequence number with one byte-carry undone: must not open
-			m.log = append(m.log, 'n')
+			o := opener(t)
+			m.log = append(m.log, fmt.Sprintf("n(%s)", o.name)...)
 			var seq *big.Int
 			switch rapid.SampledFrom([]string{"+1", "-1", "xor-byte"}).Draw(t, "neighbour") {
 			case "+1":
-				seq = new(big.Int).Add(m.seqO, one)
+				seq = new(big.Int).Add(o.seq, one)
 			case "-1":
-				seq = new(big.Int).Sub(m.seqO, one)
+				seq = new(big.Int).Sub(o.seq, one)
 			default:
-				seq = new(big.Int).Xor(m.seqO, new(big.Int).Lsh(one, uint(8*rapid.IntRange(0, nn-1).Draw(t, "byte"))))
+				seq = new(big.Int).Xor(o.seq, new(big.Int).Lsh(one, uint(8*rapid.IntRange(0, nn-1).Draw(t, "byte"))))
 			}
 			if seq.Sign() < 0 || seq.Cmp(maxSeq) > 0 {
 				t.Skip("out of range")
 			}
-			r := m.forge(seq, t)
-			m.expectOpenFail(r.ct, r.aad, "forged-neighbour")
+			r := m.forge(o, seq, t)
+			m.expectOpenFail(o, r.ct, r.aad, "forged-neighbour")
 		}),
 		"OpenForgedCurrent": m.step(func(t *rapid.T) {
-			// the sealer seals, but the opener is given a ciphertext made by the harness under exactly its next
-			// nonce: it opens (at the maximum, where the sealer cannot produce anything, this is the only way to
-			// show that Open refuses a valid ciphertext); the sealer's own ciphertext becomes stale. Both sides
-			// stay in lock-step.
-			if m.seqO.Cmp(m.seqS) != 0 {
-				t.Skip("opener behind")
+			// a sealer at the opener's position seals, but the opener is given a ciphertext made by the harness under
+			// exactly its next nonce: it opens (at the maximum, where a sealer cannot produce anything, this is the only
+			// way to show that Open refuses a valid ciphertext); the sealer's own ciphertext becomes stale.
+			o := opener(t)
+			var s *ctx
+			for _, c := range m.sealers {
+				if c.aeadID == o.aeadID && c.seq.Cmp(o.seq) == 0 {
+					s = c
+					break
+				}
 			}
-			m.log = append(m.log, 'c')
-			m.seal(t)
-			m.expectOpenOK(m.forge(m.seqO, t), "forged-current")
+			if s == nil {
+				t.Skip("no sealer at the opener's position")
+			}
+			m.log = append(m.log, fmt.Sprintf("c(%s)", o.name)...)
+			m.sealOn(t, s)
+			m.expectOpenOK(o, m.forge(o, o.seq, t), "forged-current")
 		}),
 		"Export": m.step(func(t *rapid.T) {
 			m.log = append(m.log, 'E')
-			ctx := vlib.Bytes(t, 0, 40, "expctx")
+			ctxb := vlib.Bytes(t, 0, 40, "expctx")
 			L := rapid.SampledFrom([]int{0, 1, 16, 32, 64, 100}).Draw(t, "L")
-			want := rhpke.ExportFrom(m.suite, m.exporter, ctx, L)
-			if got := m.sealer.Export(ctx, uint(L)); !bytes.Equal(got, want) {
-				m.fail("C08/export/sealer", fmt.Sprintf("Export(%x,%d) = %x want %x", ctx, L, got, want))
-			}
-			if got := m.opener.Export(ctx, uint(L)); !bytes.Equal(got, want) {
-				m.fail("C08/export/opener", fmt.Sprintf("Export(%x,%d) = %x want %x", ctx, L, got, want))
+			for _, c := range []*ctx{m.pick(t, m.sealers, "sealer"), m.pick(t, m.openers, "opener")} {
+				want := rhpke.ExportFrom(c.suite, m.exporter, ctxb, L)
+				if got := c.obj().Export(ctxb, uint(L)); !bytes.Equal(got, want) {
+					m.fail("C08/export/"+map[byte]string{0: "sealer", 1: "opener"}[c.role()], fmt.Sprintf("%s.Export(%x,%d) = %x want %x", c.name, ctxb, L, got, want))
+				}
 			}
 			vlib.Class(m.sub, "export")
 		}),
-		"RestoreSealer": m.step(func(t *rapid.T) { m.log = append(m.log, 'R'); m.restore(t, "sealer") }),
-		"RestoreOpener": m.step(func(t *rapid.T) { m.log = append(m.log, 'r'); m.restore(t, "opener") }),
+		"RestoreSealer": m.step(func(t *rapid.T) { m.log = append(m.log, 'R'); m.restore(t, m.sealers, "sealer") }),
+		"RestoreOpener": m.step(func(t *rapid.T) { m.log = append(m.log, 'r'); m.restore(t, m.openers, "opener") }),
+		"ForkSealer":    m.step(func(t *rapid.T) { m.log = append(m.log, 'K'); m.fork(t, true) }),
+		"ForkOpener":    m.step(func(t *rapid.T) { m.log = append(m.log, 'k'); m.fork(t, false) }),
+		"SetupAgain": m.step(func(t *rapid.T) {
+			// the original Receiver object is asked for the same encapsulated key and inputs again: the opener it hands
+			// out is a context of its own, starting at 0, whatever its siblings did meanwhile
+			if len(m.openers) >= maxPerRole {
+				t.Skip("enough contexts")
+			}
+			m.log = append(m.log, 'A')
+			o, err := m.rcvSetup()
+			if err != nil {
+				m.fail("C08/setup-again/error", fmt.Sprintf("Receiver.Setup with the same enc again: %v", err))
+			}
+			first := m.openers[1]
+			m.openers = append(m.openers, &ctx{name: fmt.Sprintf("O0+again%d", len(m.openers)), opener: o, aeadID: first.aeadID, suite: first.suite, key: first.key, aead: first.aead, seq: big.NewInt(0)})
+			m.siblings = true
+			vlib.Class(m.sub, "setup-again")
+		}),
 		"": func(t *rapid.T) {
 			if m.dead {
 				return
@@ -510,12 +690,15 @@ func history(t *rapid.T, aeadID uint16, sub string) {
 	if m.restoreBetweenSeals {
 		feats = append(feats, "restore-between-seals")
 	}
+	if m.siblings {
+		feats = append(feats, "sibling-contexts")
+	}
 	for _, f := range feats {
 		vlib.Class(sub, "history:"+f)
 	}
 	if len(feats) > 0 {
-		vlib.NonTrivial(sub, "", m.log, m.key, m.bn)
-		vlib.Sample(sub, feats[0], fmt.Sprintf("suite=%v %s features=%v", m.suite, m.log, feats))
+		vlib.NonTrivial(sub, "", m.log, m.master, m.bn)
+		vlib.Sample(sub, feats[0], fmt.Sprintf("kem=%#x kdf=%d aead=%d %s features=%v", m.kem, m.kdf, m.primary, m.log, feats))
 	} else {
 		vlib.Class(sub, "history:trivial")
 	}
